@@ -137,7 +137,7 @@ def tlc(module, cfg, env=None, workers=8, timeout=900, simulate=None, deque=Fals
         cmd.append("-Xmx" + heap)
     if deque:
         cmd.append("-Dtlc2.tool.queue.IStateQueue=StateDeque")
-    cmd += ["-cp", TLA_CP, "tlc2.TLC", "-workers", str(workers), "-metadir", meta, "-cleanup", "-noGenerateSpecTE"]
+    cmd += ["-cp", TLA_CP, "tlc2.TLC", "-workers", str(workers), "-metadir", meta, "-cleanup", "-noGenerateSpecTE", "-checkpoint", "0"]
     if coverage and not simulate:
         cmd += ["-coverage", "1"]
     if simulate:
